@@ -181,6 +181,7 @@ type runConfig struct {
 	repoDir  string
 	tier     string
 	seed     int
+	outDir   string
 }
 
 type configRun struct {
@@ -218,7 +219,10 @@ func runProperty(rc runConfig, prop *Property) int {
 	start := time.Now()
 	known, kerr := readKnown(filepath.Join(rc.verifDir, "known_findings.txt"))
 	exit := 0
-	violDir := filepath.Join(rc.verifDir, "evidence", "violations")
+	if rc.outDir == "" {
+		rc.outDir = filepath.Join(rc.verifDir, "evidence")
+	}
+	violDir := filepath.Join(rc.outDir, "violations")
 	os.MkdirAll(violDir, 0o755)
 	// remove stale replay files of this property
 	if old, _ := filepath.Glob(filepath.Join(violDir, prop.ID+"-*.json")); old != nil {
@@ -427,6 +431,20 @@ func runProperty(rc runConfig, prop *Property) int {
 		}
 		cfgInfo = append(cfgInfo, ci)
 	}
+	var selftest map[string]any
+	if rc.tier == "thorough" {
+		only := map[string]bool{}
+		for _, rid := range prop.Rules {
+			only[rid] = true
+		}
+		rs := selftestAll(rc.verifDir, rc.repoDir, only, 8)
+		selftest = summarizeSelftest(rs)
+		if pr, _ := selftest["problems"].([]string); len(pr) > 0 {
+			for _, p := range pr {
+				fmt.Println("SELFTEST-NOTE (checker self-validation, not a property verdict):", p)
+			}
+		}
+	}
 	ev := Evidence{
 		PropertyID: prop.ID, Tier: rc.tier, Seed: rc.seed, Level: "other",
 		Coverage: map[string]any{
@@ -446,8 +464,11 @@ func runProperty(rc runConfig, prop *Property) int {
 		WallS:       time.Since(start).Seconds(),
 		Violations:  nviol,
 	}
+	if selftest != nil {
+		ev.Coverage["checker_self_validation"] = selftest
+	}
 	b, _ := json.MarshalIndent(ev, "", " ")
-	evPath := filepath.Join(rc.verifDir, "evidence", prop.ID+".json")
+	evPath := filepath.Join(rc.outDir, prop.ID+".json")
 	if err := os.WriteFile(evPath, b, 0o644); err != nil {
 		fmt.Fprintln(os.Stderr, "cannot write evidence:", err)
 		return 1
